@@ -79,7 +79,7 @@ Definition database_open (bs : bytes) : out (fstate * ptr) :=
   else Ok (f', root).
 
 (* ---------------------------------------------------------------- strings *)
-Fixpoint drop_blanks (r : bytes) : bytes := match r with 32 :: t => drop_blanks t | _ => r end.
+Fixpoint drop_blanks (r : bytes) : bytes := match r with c :: t => if c =? 32 then drop_blanks t else r | [] => r end.
 (* ADFI_string_2_C_string *)
 Definition c_string (s : bytes) (n : nat) : bytes := rev (drop_blanks (rev (cstr_or_all (firstn n s)))).
 (* ADFI_compare_node_names(name[32], new_name) *)
@@ -266,18 +266,21 @@ Fixpoint dt_parse (fuel : nat) (sz : list Z) (tokcap : Z) (s : bytes) (pos0 : bo
         match r2 with
         | [] => fb' <- add_bytes fb sf 1 ;; mb' <- add_bytes mb sm 1 ;;
                 dt_parse fu sz tokcap [] false (ntok + 1) fb' mb' (teq && (sf =? sm))
-        | 91 :: r3 =>                                        (* '[' *)
+        | c3 :: r3 =>
+          if c3 =? 91 then                                     (* '[' *)
             '(n, r4) <- dt_digits r3 0 ;;
             match r4 with
-            | 93 :: r5 =>
-                let r6 := match r5 with 44 :: r => r | _ => r5 end in
+            | c4 :: r5 =>
+                if negb (c4 =? 93) then Err E_INVALID_DATA_TYPE else
+                let r6 := match r5 with c5 :: r => if c5 =? 44 then r else r5 | [] => r5 end in
                 fb' <- add_bytes fb sf n ;; mb' <- add_bytes mb sm n ;;
                 dt_parse fu sz tokcap r6 false (ntok + 1) fb' mb' (teq && (sf =? sm))
-            | _ => Err E_INVALID_DATA_TYPE
+            | [] => Err E_INVALID_DATA_TYPE
             end
-        | 44 :: r3 => fb' <- add_bytes fb sf 1 ;; mb' <- add_bytes mb sm 1 ;;     (* the token is overwritten by the next *)
-                      dt_parse fu sz tokcap r3 false ntok fb' mb' teq
-        | _ => Err E_INVALID_DATA_TYPE
+          else if c3 =? 44 then
+            fb' <- add_bytes fb sf 1 ;; mb' <- add_bytes mb sm 1 ;;     (* the token is overwritten by the next *)
+            dt_parse fu sz tokcap r3 false ntok fb' mb' teq
+          else Err E_INVALID_DATA_TYPE
         end
       end
     end
@@ -417,7 +420,7 @@ Fixpoint chase_loop (g : ptr -> bytes -> out ptr) (f : fstate) (n : nat) (id : p
         | _ :: _ => Ext
         | [] =>
             t <- g id [47] ;;
-            t2 <- (match g t path with Err 29 => Err E_LINK_TARGET | r => r end) ;;
+            t2 <- (match g t path with Err e => if e =? 29 then Err E_LINK_TARGET else Err e | r => r end) ;;
             if depth + 1 >? 100 then Err E_LINKS_TOO_DEEP else chase_loop g f n' t2 (depth + 1)
         end
       else Ok (id, h)
